@@ -15,6 +15,9 @@ Inductive obs := BOk (s : string) | BRaise (e : exc) | BOther | BOut.
 
 Record case := Case {
   c_heap : heap;
+  c_eqcls : list nat;              (* per heap node: its EQUALITY class under Python's == (nodes of one class
+                                      compare equal); carried for the record only - the model identifies
+                                      objects by their heap index (identity) and never reads this field *)
   c_warm : bool;                   (* sequential: repr_context.already_repring already exists (empty) *)
   c_faults : list (list bool);     (* fault oracle of thread t (sequential: of entry 0) *)
   c_threaded : bool;               (* true: call i is made by thread i, all concurrently *)
@@ -120,6 +123,13 @@ Proof.
   induction l as [|x l IH]; intros l0; destruct l0 as [|y l0]; cbn; try discriminate; [constructor|].
   intros H. apply andb_true_iff in H as [H1 H2]. constructor; [now apply entry_ok_agrees | now apply IH].
 Qed.
+
+(** The prediction does not depend on which objects compare equal under [==]: only
+    object identity (the heap index) enters the guard of the generated [__repr__]. *)
+Lemma model_ignores_equality c cls' :
+  model_of (Case (c_heap c) cls' (c_warm c) (c_faults c) (c_threaded c) (c_sched c) (c_rounds c)
+                 (c_calls c) (c_seen c)) = model_of c.
+Proof. reflexivity. Qed.
 
 (** In a threaded case the model's entry for a thread is either "not finished within
     the given schedule" or exactly the solo answer (by [repr_thread_isolation_l]):
